@@ -140,7 +140,14 @@ fn counting_case(i: u64, seed: u64) -> Out {
     match i % 6 {
         0 => {
             // u64 items
-            let a: Vec<u64> = (0..n).map(|_| rng.next_u64() | 1).collect();
+            let mut a: Vec<u64> = (0..n).map(|_| rng.next_u64() | 1).collect();
+            // values with a special role somewhere in the crate (initial values, sentinels) are legal sketch values too
+            if rng.random_range(0..2) == 0 {
+                for sp in [0u64, u64::MAX, 1, u32::MAX as u64] {
+                    let k = rng.random_range(0..n);
+                    a[k] = sp;
+                }
+            }
             let alt: Vec<u64> = a.iter().map(|x| x ^ 0x10).collect();
             let (b, cnt) = plant(&a, &alt, pattern, &mut rng);
             let c: Vec<u64> = (0..n2).map(|k| if k < n { a[k] } else { 7 }).collect();
@@ -176,7 +183,13 @@ fn counting_case(i: u64, seed: u64) -> Out {
         }
         2 => {
             // u16 / u32 registers
-            let a: Vec<u16> = (0..n).map(|_| (rng.next_u32() as u16) | 1).collect();
+            let mut a: Vec<u16> = (0..n).map(|_| (rng.next_u32() as u16) | 1).collect();
+            if rng.random_range(0..2) == 0 {
+                for sp in [0u16, u16::MAX, 1] {
+                    let k = rng.random_range(0..n);
+                    a[k] = sp;
+                }
+            }
             let alt: Vec<u16> = a.iter().map(|x| x ^ 2).collect();
             let (b, cnt) = plant(&a, &alt, pattern, &mut rng);
             let (a1, b1) = (a.clone(), b.clone());
@@ -193,7 +206,13 @@ fn counting_case(i: u64, seed: u64) -> Out {
             // sketch-like values; in half of the cases all below 1 (as for sets much larger than the sketch) with the "different"
             // partner only one unit in the last place away: nearly equal is not equal
             let small = rng.random_range(0..2) == 0;
-            let a: Vec<f64> = (0..n).map(|k| if small { rng.random::<f64>() } else { k as f64 + rng.random::<f64>() }).collect();
+            let mut a: Vec<f64> = (0..n).map(|k| if small { rng.random::<f64>() } else { k as f64 + rng.random::<f64>() }).collect();
+            if rng.random_range(0..2) == 0 {
+                for sp in [0f64, 1., n as f64, u32::MAX as f64] {
+                    let k = rng.random_range(0..n);
+                    a[k] = sp;
+                }
+            }
             let alt: Vec<f64> = a.iter().map(|x| if small { f64::from_bits(x.to_bits() + 1 + (x.to_bits() & 1)) } else { x + 0.25 }).collect();
             let (b, cnt) = plant(&a, &alt, pattern, &mut rng);
             let c: Vec<f64> = (0..n2).map(|k| if k < n { a[k] } else { 0.5 }).collect();
@@ -209,7 +228,13 @@ fn counting_case(i: u64, seed: u64) -> Out {
         4 => {
             // f32 sketches (f32 result)
             let small = rng.random_range(0..2) == 0;
-            let a: Vec<f32> = (0..n).map(|k| if small { rng.random::<f32>() } else { k as f32 + 0.5 * rng.random::<f32>() }).collect();
+            let mut a: Vec<f32> = (0..n).map(|k| if small { rng.random::<f32>() } else { k as f32 + 0.5 * rng.random::<f32>() }).collect();
+            if rng.random_range(0..2) == 0 {
+                for sp in [0f32, 1., n as f32] {
+                    let k = rng.random_range(0..n);
+                    a[k] = sp;
+                }
+            }
             let alt: Vec<f32> = a.iter().map(|x| if small { f32::from_bits(x.to_bits() + 1) } else { x + 0.25 }).collect();
             let (b, cnt) = plant(&a, &alt, pattern, &mut rng);
             let (a1, b1) = (a.clone(), b.clone());
@@ -341,7 +366,7 @@ pub fn child_mle(a: &[String]) -> i32 {
 
 pub fn run(rep: &mut Report) {
     quiet_panics();
-    rep.rule = "counting estimators (jaccard::compute_probminhash_jaccard, jaccard::get_jaccard_index_estimate, SuperMinHash::get_jaccard_index_estimate, superminhasher::{compute_superminhash_jaccard,get_jaccard_index_estimate}, SuperMinHash2::get_jaccard_index_estimate, superminhasher2::{compute_superminhash_jaccard,get_jaccard_index_estimate}): pairs of sketches of element types u64/String/u16/u32/f64/f32 and real sketcher states, lengths 1..5000, planted agreement patterns (none, all, first only, last only, all but first/last, random); oracle = agreements/length (bit-exact f64, nearest f32 for f32 results), both argument orders, identical => 1, unequal lengths => Err or panic (never a number). MLE: get_mle in child processes on sketch pairs from same-parameter sketchers (19 shapes: nested, very unequal, identical, five disjoint shapes (no equal register at moderate m), one common item, ordinary, empty; b in {1.001,1.1,1.5,2}; m in {16,64,128,256,512,4096}; both argument orders): must return Some(j) with j finite in [0,1]; a panic, None, NaN or out-of-range value is a violation. Distinct = cases; non-trivial: length >= 2 or any MLE case".into();
+    rep.rule = "counting estimators (jaccard::compute_probminhash_jaccard, jaccard::get_jaccard_index_estimate, SuperMinHash::get_jaccard_index_estimate, superminhasher::{compute_superminhash_jaccard,get_jaccard_index_estimate}, SuperMinHash2::get_jaccard_index_estimate, superminhasher2::{compute_superminhash_jaccard,get_jaccard_index_estimate}): pairs of sketches of element types u64/String/u16/u32/f64/f32 and real sketcher states, lengths 1..5000, planted agreement patterns (none, all, first only, last only, all but first/last, random), half of the vectors containing values with a special role in the crate (0, MAX, 1, the sketch length); oracle = agreements/length (bit-exact f64, nearest f32 for f32 results), both argument orders, identical => 1, unequal lengths => Err or panic (never a number). MLE: get_mle in child processes on sketch pairs from same-parameter sketchers (19 shapes: nested, very unequal, identical, five disjoint shapes (no equal register at moderate m), one common item, ordinary, empty; b in {1.001,1.1,1.5,2}; m in {16,64,128,256,512,4096}; both argument orders): must return Some(j) with j finite in [0,1]; a panic, None, NaN or out-of-range value is a violation. Distinct = cases; non-trivial: length >= 2 or any MLE case".into();
     // ---- counting estimators
     if rep.want("counting") {
         let n: u64 = rep.tier.pick(12_000, 400_000);
